@@ -432,7 +432,10 @@ def impl_prank_case(ops):
                     e.code[con_addr(a)] = Contract(ByteVec(bytes(c)))
                     e.storage.setdefault(con_addr(a), sevm_env()["sevm"].mk_storagedata())
                 for e2 in run_second_tx(e, this, sender, origin):
-                    new.append((tr + observed_trace(e2), e2))
+                    t2 = observed_trace(e2)
+                    # a stuck path only shows the tail of its own transaction (see same_trace):
+                    # keep it a suffix of the whole by dropping the first transaction's part
+                    new.append((t2 if (t2 and t2[-1] == [0]) else tr + t2, e2))
             results = new
     return [tr for tr, _ in results]
 
